@@ -238,6 +238,22 @@ def run(F, ck, tier):
                     ck.ob('R13.7', 'raw-repr:%s' % fn.qual, False, '%s feeds the raw representation of a field element (to_noncanonical_u64) into a hash / encoding: equal field values held in different u64 representations give different digests or challenges' % fn.qual, x.get('s'))
     ck.ob('R13.7', 'raw-repr:confined', True, '%d raw-representation reads, all inside the Poseidon kernels' % nraw)
     ck.floor('R13.7', 'raw-representation reads seen', nraw, 4)
+    # R13.8 a permutation that serialises its state reads the WHOLE state (rate and capacity)
+    ck.rule('R13.8', 'every range loop of a PlonkyPermutation::permute implementation runs over the full state width: a permutation that only hashes the rate part forgets everything absorbed before the last block')
+    from . import c07 as _c07
+    for i_ in F.impls_of('PlonkyPermutation'):
+        if i_['crate'] != 'plonky2':
+            continue
+        fns_ = {f.name: f for f in F.fns.values() if f.raw.get('impl') == i_['d']}
+        owner_ = (i_.get('self_adt') or '?').split('::')[-1]
+        if 'permute' not in fns_ or 'WIDTH' not in fns_:
+            continue
+        w_ = const_value(F, fns_['WIDTH'].body)
+        lb_ = _c07.loop_bounds(F, fns_['permute'])
+        okl = all(b == str(w_) for b in lb_)
+        ck.ob('R13.8', 'full-width:' + owner_, okl, 'state loops run over WIDTH = %s (%d loop(s))' % (w_, len(lb_)) if okl else
+              '%s::permute has a state loop of length %s although the state has %s elements: the capacity part of the sponge state is dropped, so challenges depend only on the last absorbed block' % (owner_, [b for b in lb_ if b != str(w_)], w_),
+              '%s:%d' % (fns_['permute'].file, fns_['permute'].line))
     ck.decided += ['sponge discipline: overwrite at 0 in RATE chunks, permutation per chunk, outputs from the rate part, native/circuit hash skeleton agreement, compression layout, container rate/capacity']
     ck.undecided += ['equality of the optimised Poseidon permutation (fast partial rounds, frequency-domain MDS, u160 reduction, SIMD) with the textbook permutation on every input - numeric, not decided',
                      'collision resistance / random-oracle behaviour']
